@@ -374,10 +374,92 @@ Proof. destruct m; reflexivity. Qed.
 Lemma Some_inj {A} (a b : A) : Some a = Some b -> a = b.
 Proof. intros H; injection H; auto. Qed.
 
+(* ---- the shared framing: one frame ---- *)
+Theorem pfx_roundtrip parse payload reg lim ids p m f size rest :
+  (forall g, In g reg -> inverts g) ->
+  pipe_append reg [] ids = (p, None) ->
+  parse payload = Ok m ->
+  pfx_pack lim p payload = Ok (f, size) ->
+  blen f < 4294967296 ->
+  pfx_unpack parse reg lim (f ++ rest) = Ok (m, ids, size, rest) /\ 4 + size = blen f.
+Proof.
+  intros Hinv Hp Hparse Hpack Hlen.
+  destruct (append_ok_ids _ _ _ Hp) as (Hids & Hidlen & _).
+  unfold pfx_pack in Hpack.
+  destruct (pipe_pack p payload) as [b|] eqn:Hpp; cbn [of_option rbind] in Hpack; [|discriminate].
+  rewrite Hids in Hpack.
+  set (sz := (1 + blen ids + blen b) mod 4294967296) in Hpack.
+  destruct (lim <? sz) eqn:Hlim; [discriminate|].
+  apply Ok_inj in Hpack. apply pair_equal_spec in Hpack as [Ef Es]. subst size.
+  assert (Hflen : blen f = 4 + (1 + blen ids + blen b)).
+  { rewrite <- Ef. rewrite blen_app, (be_of_N_blen 4), blen_cons, blen_app. lia. }
+  assert (Hsz : sz = 1 + blen ids + blen b).
+  { unfold sz. apply N.mod_small. lia. }
+  split; [|lia].
+  assert (Hidl : blen ids <= 255) by (unfold blen; lia).
+  unfold pfx_unpack. rewrite <- Ef. rewrite <- app_assoc.
+  rewrite take_app by apply (be_of_N_blen 4). cbn [rbind].
+  rewrite N_of_be_of_N by (change (256 ^ N.of_nat 4) with 4294967296; lia).
+  rewrite Hlim.
+  replace (sz =? 0) with false by (symmetry; apply N.eqb_neq; lia).
+  rewrite take_app by (rewrite blen_cons, blen_app; lia). cbn [rbind].
+  rewrite b2n_n2b by lia.
+  destruct ids as [|i0 ids'].
+  - assert (p = []) by (destruct p; [reflexivity | cbn in Hids; discriminate]). subst p.
+    cbn [pipe_pack] in Hpp. apply Some_inj in Hpp. subst b.
+    change (blen []) with 0. cbn [N.eqb app rbind].
+    rewrite Hparse. cbn [rbind]. reflexivity.
+  - replace (blen (i0 :: ids') =? 0) with false
+      by (symmetry; apply N.eqb_neq; rewrite blen_cons; lia).
+    replace (blen ((i0 :: ids') ++ b) <? blen (i0 :: ids')) with false
+      by (symmetry; apply N.ltb_ge; rewrite blen_app; lia).
+    unfold blen at 1 2. rewrite Nat2N.id, firstn_len_app, skipn_len_app, Hp.
+    rewrite (registered_pipe_roundtrip reg _ p Hinv Hp _ _ Hpp). cbn [of_option rbind].
+    rewrite Hids, Hparse. cbn [rbind]. reflexivity.
+Qed.
+
+Lemma pfx_pack_nonnil lim p payload f size : pfx_pack lim p payload = Ok (f, size) -> f <> [].
+Proof.
+  unfold pfx_pack. destruct (pipe_pack p payload); cbn [of_option rbind]; [|discriminate].
+  destruct (lim <? _); [discriminate|]. intros H. apply Ok_inj in H.
+  apply pair_equal_spec in H as [<- _]. destruct (be_of_N 4 _) eqn:E; [|discriminate].
+  apply (f_equal (@length byte)) in E. rewrite be_of_N_length in E. discriminate.
+Qed.
+
+(* streams of frames of one framing, any payload parser *)
+Theorem pfx_stream {X} parse (payload_of : X -> bytes) (msg_of : X -> msg) reg lim :
+  (forall g, In g reg -> inverts g) ->
+  forall (xs : list (list byte * X * bytes)) fuel,
+  Forall (fun '(ids, x, f) => exists p size,
+            pipe_append reg [] ids = (p, None) /\ parse (payload_of x) = Ok (msg_of x) /\
+            pfx_pack lim p (payload_of x) = Ok (f, size) /\ blen f < 4294967296) xs ->
+  (length xs < fuel)%nat ->
+  decode_all fuel (fun s => retuple (pfx_unpack parse reg lim s)) (concat (map snd xs))
+  = (map (fun '(ids, x, f) => (msg_of x, ids, blen f - 4)) xs, Ok tt).
+Proof.
+  intros Hinv xs fuel Hwf Hfuel.
+  apply (decode_all_frames _ snd (fun '(ids, x, f) => (msg_of x, ids, blen f - 4))); [|exact Hfuel].
+  intros [[ids x] f] Hin. rewrite Forall_forall in Hwf. specialize (Hwf _ Hin).
+  destruct Hwf as (p & size & Hp & Hparse & Hpack & Hlen). cbn [snd]. split.
+  - eapply pfx_pack_nonnil. exact Hpack.
+  - intros rest.
+    destruct (pfx_roundtrip parse _ reg lim ids p _ f size rest Hinv Hp Hparse Hpack Hlen) as [Hu Hs].
+    rewrite Hu. cbn [retuple]. replace (blen f - 4) with size by lia. reflexivity.
+Qed.
+
 (* ---- jsonproto: one frame ---- *)
 Section JsonProto.
   Variable quote_hi : bytes -> bytes.
   Variable gjson_other : bytes -> jraw.
+
+  Lemma json_parse_ok m :
+    json_ok m = true ->
+    json_parse gjson_other (json_payload quote_hi jesc_byte m) = Ok m.
+  Proof.
+    intros Hok. unfold json_parse, gjson_json.
+    rewrite parse_json_ok by (auto using jesc_byte_ok). cbn [jr_body jraw_of].
+    rewrite msg_of_jraw_ok by exact Hok. rewrite msg_eta. reflexivity.
+  Qed.
 
   Theorem json_roundtrip_lemma reg lim ids p m f size rest :
     (forall g, In g reg -> inverts g) ->
@@ -387,47 +469,8 @@ Section JsonProto.
     blen f < 4294967296 ->
     json_unpack gjson_other reg lim (f ++ rest) = Ok (m, ids, size, rest) /\ 4 + size = blen f.
   Proof.
-    intros Hinv Hp Hok Hpack Hlen.
-    destruct (append_ok_ids _ _ _ Hp) as (Hids & Hidlen & _).
-    unfold json_pack in Hpack.
-    destruct (pipe_pack p (json_payload quote_hi jesc_byte m)) as [b|] eqn:Hpp;
-      cbn [of_option rbind] in Hpack; [|discriminate].
-    rewrite Hids in Hpack.
-    set (sz := (1 + blen ids + blen b) mod 4294967296) in Hpack.
-    destruct (lim <? sz) eqn:Hlim; [discriminate|].
-    apply Ok_inj in Hpack. apply pair_equal_spec in Hpack as [Ef Es]. subst size.
-    assert (Hflen : blen f = 4 + (1 + blen ids + blen b)).
-    { rewrite <- Ef. rewrite blen_app, (be_of_N_blen 4), blen_cons, blen_app. lia. }
-    assert (Hsz : sz = 1 + blen ids + blen b).
-    { unfold sz. apply N.mod_small. lia. }
-    split; [|lia].
-    assert (Hidl : blen ids <= 255) by (unfold blen; lia).
-    unfold json_unpack. rewrite <- Ef. rewrite <- app_assoc.
-    rewrite take_app by apply (be_of_N_blen 4). cbn [rbind].
-    rewrite N_of_be_of_N by (change (256 ^ N.of_nat 4) with 4294967296; lia).
-    rewrite Hlim.
-    replace (sz =? 0) with false by (symmetry; apply N.eqb_neq; lia).
-    change ((n2b (blen ids) :: ids ++ b) ++ rest) with ((n2b (blen ids) :: ids ++ b) ++ rest).
-    rewrite take_app by (rewrite blen_cons, blen_app; lia). cbn [rbind].
-    rewrite b2n_n2b by lia.
-    assert (Hparse : gjson_json gjson_other (json_payload quote_hi jesc_byte m)
-                     = jraw_of m (m_body m) []).
-    { unfold gjson_json. rewrite parse_json_ok by (auto using jesc_byte_ok). reflexivity. }
-    destruct ids as [|i0 ids'].
-    - (* no pipe *)
-      assert (p = []) by (destruct p; [reflexivity | cbn in Hids; discriminate]). subst p.
-      cbn [pipe_pack] in Hpp. apply Some_inj in Hpp. subst b.
-      change (blen []) with 0. cbn [N.eqb app rbind].
-      rewrite Hparse. cbn [jr_body jraw_of].
-      rewrite msg_of_jraw_ok by exact Hok. cbn [rbind]. rewrite msg_eta. reflexivity.
-    - replace (blen (i0 :: ids') =? 0) with false
-        by (symmetry; apply N.eqb_neq; rewrite blen_cons; lia).
-      replace (blen ((i0 :: ids') ++ b) <? blen (i0 :: ids')) with false
-        by (symmetry; apply N.ltb_ge; rewrite blen_app; lia).
-      unfold blen at 1 2. rewrite Nat2N.id, firstn_len_app, skipn_len_app, Hp.
-      rewrite (registered_pipe_roundtrip reg _ p Hinv Hp _ _ Hpp). cbn [of_option rbind].
-      rewrite Hids, Hparse. cbn [jr_body jraw_of].
-      rewrite msg_of_jraw_ok by exact Hok. cbn [rbind]. rewrite msg_eta. reflexivity.
+    intros Hinv Hp Hok Hpack Hlen. unfold json_unpack, json_pack in *.
+    eapply pfx_roundtrip; eauto using json_parse_ok.
   Qed.
 End JsonProto.
 
@@ -449,10 +492,7 @@ Proof.
   apply (decode_all_frames _ snd (fun '(ids, m, f) => (m, ids, blen f - 4))); [|exact Hfuel].
   intros [[ids m] f] Hin. rewrite Forall_forall in Hwf. specialize (Hwf _ Hin).
   destruct Hwf as (p & size & Hp & Hok & Hpack & Hlen). cbn [snd]. split.
-  - unfold json_pack in Hpack. destruct (pipe_pack p _); cbn [of_option rbind] in Hpack; [|discriminate].
-    destruct (lim <? _); [discriminate|]. apply Ok_inj in Hpack.
-    apply pair_equal_spec in Hpack as [<- _]. destruct (be_of_N 4 _) eqn:E; [|discriminate].
-    apply (f_equal (@length byte)) in E. rewrite be_of_N_length in E. discriminate.
+  - eapply pfx_pack_nonnil. exact Hpack.
   - intros rest.
     destruct (json_roundtrip_lemma quote_hi gjson_other reg lim ids p m f size rest Hinv Hp Hok Hpack Hlen)
       as [Hu Hs].
